@@ -43,6 +43,7 @@ type sim struct {
 	log   core.LogHasher
 	frng  *core.Rng // fault stream
 	model bool      // refinement against refspec armed
+	steps bool      // ... including the step-wise transition checks (C01/C02)
 	step  int
 	stop  bool
 }
@@ -563,7 +564,7 @@ func (s *sim) tick(n *simNode, slot uint64) {
 	}
 	var err error
 	var preTick *stateBox
-	if s.model {
+	if s.steps {
 		preTick, _ = n.ticked.copy()
 	}
 	if p := guard(func() { err = common.ProcessSlots(context.Background(), s.w.spec, n.ticked.epc, n.ticked.st, common.Slot(slot)) }); p != nil {
@@ -575,7 +576,7 @@ func (s *sim) tick(n *simNode, slot uint64) {
 		return
 	}
 	s.res.Stat("slot_ticks", 1)
-	if s.model && preTick != nil {
+	if s.steps && preTick != nil {
 		if !s.checkSlotsStep(preTick, n.ticked, slot, fmt.Sprintf("node %d tick", n.id)) {
 			return
 		}
@@ -607,8 +608,10 @@ func run(cfg *Config, opt core.Options, res *core.Result) *sim {
 	}
 	s := &sim{w: w, cfg: cfg, opt: opt, res: res, frng: core.NewRng(cfg.Seed ^ 0xfa17)}
 	switch opt.Property {
-	case "C01", "C02", "C03", "C07", "C13":
-		s.model = true
+	case "C01", "C02", "C03":
+		s.model, s.steps = true, true
+	case "C07", "C13":
+		s.model = true // reference model for committees / genesis only
 	}
 	for i := 0; i < cfg.Nodes; i++ {
 		n := &simNode{id: i, states: map[common.Root]*stateBox{}, ticker: i%2 == 1, restarts: i == 2 || (cfg.Nodes < 3 && i == 0)}
@@ -668,7 +671,7 @@ func run(cfg *Config, opt core.Options, res *core.Result) *sim {
 				w.head = blk
 			}
 			res.Stat("blocks_produced", 1)
-			if s.model {
+			if s.steps {
 				s.checkBlockStep(parent, blk)
 				if s.stop {
 					break
